@@ -3,7 +3,8 @@ import PGM.Model.Certificate
 # Public-data reweighting (`src/mbi/public_inference.py:20-46`): entropic mirror descent
 
 Transcribed as written — in particular `P` is computed once before the loop and is **not** updated
-when a step is accepted (only `logP`, `loss`, `dL` are).  `lossgrad` is the objective
+when a step is accepted (only `logP`, `loss`, `dL` are); since the repair recorded in
+`known_findings.json` the gradient is centred at the top of the loop body.  `lossgrad` is the objective
 (`loss_and_grad`: weighted contingency tables, `_marginal_loss`, gather of the clique gradients at
 the records' cells); for the squared error it is `Cert.loss` / `Cert.grad` with `A = c·Q·Inc`
 (`Inc` the record→cell incidence matrix).
@@ -23,21 +24,30 @@ structure EmdState (α : Type) where
   alpha : α
   begun : Bool
 
-/-- one iteration of the loop; `P0` is the (stale) initial point used in the acceptance test -/
+/-- `dL - dL.mean()`: the first statement of the loop body (the step does not depend on a constant
+added to `dL` because `Q` is renormalised; removing it keeps `alpha*dL` small) -/
+def center (d : List α) : List α :=
+  let m := Scalar.div (vsum d) (Scalar.ofNat d.length)
+  d.map (fun x => Scalar.sub x m)
+
+/-- one iteration of the loop; `P0` is the (stale) initial point used in the acceptance test.
+`dL` is rebound to its centred value at the top of the body, so a rejected step leaves the centred
+gradient in the state -/
 def emdStep (lossgrad : List α → α × List α) (total : α) (P0 : List α) (s : EmdState α) : EmdState α :=
-  let logQ0 := List.zipWith (fun lp d => Scalar.sub lp (Scalar.mul s.alpha d)) s.logP s.dL
+  let dL := center s.dL
+  let logQ0 := List.zipWith (fun lp d => Scalar.sub lp (Scalar.mul s.alpha d)) s.logP dL
   let shift := Scalar.sub (Scalar.log total) (Scalar.lse logQ0)
   let logQ := logQ0.map (fun v => Scalar.add v shift)
   let Q := logQ.map Scalar.exp
   let r := lossgrad Q
   let two : α := Scalar.add Scalar.one Scalar.one
   let half : α := Scalar.div Scalar.one two
-  let thr := Scalar.mul (Scalar.mul half s.alpha) (dotv s.dL (List.zipWith Scalar.sub P0 Q))
+  let thr := Scalar.mul (Scalar.mul half s.alpha) (dotv dL (List.zipWith Scalar.sub P0 Q))
   -- `loss - new_loss >= thr`  as  `!(thr > loss - new_loss)`
   if !(Scalar.gt0 (Scalar.sub thr (Scalar.sub s.loss r.1))) then
     ⟨logQ, r.1, r.2, if s.begun then s.alpha else Scalar.mul s.alpha two, s.begun⟩
   else
-    ⟨s.logP, s.loss, s.dL, Scalar.mul s.alpha half, true⟩
+    ⟨s.logP, s.loss, dL, Scalar.mul s.alpha half, true⟩
 
 /-- `entropic_mirror_descent(loss_and_grad, x0, total, iters)`; `eps0 = np.nextafter(0,1)` -/
 def emd (lossgrad : List α → α × List α) (x0 : List α) (total eps0 : α) (iters : Nat) : List α :=
